@@ -19,7 +19,7 @@ def _module_tree(prog, relpath):
     m = prog.by_relpath.get(relpath)
     if m is None:
         raise EditFailed("no module %s" % relpath)
-    return copy.deepcopy(m.tree)
+    return copy.deepcopy(m.raw_tree)
 
 
 def apply(prog, relpath, editor):
@@ -28,7 +28,7 @@ def apply(prog, relpath, editor):
     editor(tree)
     ast.fix_missing_locations(tree)
     src = ast.unparse(tree)
-    return Program(prog.repo, overrides={relpath: src})
+    return Program(prog.repo, overrides={relpath: src}, inline=prog.inline)
 
 
 def apply_many(prog, edits):
@@ -41,7 +41,7 @@ def apply_many(prog, edits):
         editor(tree)
         ast.fix_missing_locations(tree)
         overrides[relpath] = ast.unparse(tree)
-    return Program(prog.repo, overrides=overrides)
+    return Program(prog.repo, overrides=overrides, inline=prog.inline)
 
 
 def find_def(tree, qual):
